@@ -172,6 +172,11 @@ func TestChild(t *testing.T) {
 			runtime.GOMAXPROCS(4)
 		}
 		childFree(o)
+	case "cron":
+		if runtime.GOMAXPROCS(0) < 4 {
+			runtime.GOMAXPROCS(4)
+		}
+		childCron(o)
 	default:
 		t.Fatalf("unknown part %q", part)
 	}
